@@ -58,6 +58,15 @@ CHECKS.update({
     text='Lexer inputs (all strings up to length 4/5 over the critical alphabet), parser inputs (every repository example whole, truncated, with seeded noise; malformed programs), every repository example and generated family through read()+solve() in Debug and ASan+UBSan builds, and seeded network API histories under the sanitizers: every run must return (result or reported error) within its budget; aborts, failed assertions, uncaught exceptions, sanitizer reports and unlisted leak sites are violations.',
     technique='exploration with TLC trace specifications as the acceptance filter (LexTrace, PlanTrace, NetworkTrace) + sanitizer builds'),
 })
+CHECKS.update({
+ 'C19': dict(cat='model_checking', design='3/C19', note=PLAN_NOTE + ' exec_driver records every executor_listener callback with the values at that moment.',
+    text='Solved plans are executed tick by tick by the real executor with a scripted client (seeded delays from the starting / ending callbacks, failures between ticks) under several policies; TLC validates every recorded callback against the executor section of PlanTrace.tla (time advances by one unit, started once / ended once, start before end, not before the planned time, not in a tick in which a delay was requested, frozen times never move, everything due is dispatched) and re-validates every adapted plan with the Plan predicates.',
+    technique='TLC trace validation of recorded executor callbacks + Plan validity of every adapted plan'),
+ 'C20': dict(cat='model_checking', design='3/C20',
+    note='Trusted: TLC; the ThreadPool / ParPivot models are hand-written abstractions of thread_pool.cpp and of the PARALLELIZE section of lra_theory::pivot (bound to the code by the differential run and by reading, not by thread-level traces); the OS produces the schedules of the real runs; C++ memory-model races are only observed through ThreadSanitizer.',
+    text='TLC explores every interleaving of the thread-pool protocol (mutex, shared condition variable, active counter, enqueue/join) and of the per-row pivot tasks with per-variable mutexes: join returns only when all tasks are done and always returns, watch-list updates are mutually exclusive, the result equals the sequential one (and the model without the mutex fails). The same linear-arithmetic call sequences are executed on the sequential and on the PARALLELIZE build under several pool sizes and ParTrace requires identical results, values, bounds and learnt clauses for every call; ThreadSanitizer runs the same sequences.',
+    technique='exhaustive TLC model checking of the concurrency protocol + TLC-judged differential traces SEQ vs PARALLELIZE build'),
+})
 NOT_YET = {
 }
 
